@@ -91,6 +91,26 @@ def check(col: Collector, tier: str):
         col.add("C05.R2", f.short, "clear-guard-is-exactly-rep_is_collection", have == want_guard and len(gs) == 1,
                 f"the clear must be emitted for every column that is filled by push_back, i.e. under rep_is_collection(value) and nothing narrower "
                 f"(guards found: {[src(t) + '=' + str(tr) for t, tr in gs]}): a narrower test leaves e.g. vector<vector<>> columns growing from event to event", f.loc)
+        # ... and the predicate itself: true for sequences and for collections, false otherwise
+        from sa.core.paths import enumerate_paths
+        ric = repo.function("rep_is_collection")
+        prm = ric.node.args.args[0].arg
+        verdicts = []
+        tested = set()
+        for p in enumerate_paths(ric.node):
+            conds = []
+            for e in p.events:
+                if e.kind == "cond" and isinstance(e.node, ast.Call) and call_name(e.node) == "isinstance" and src(e.node.args[0]) == prm:
+                    kinds = [src(x).split(".")[-1] for x in (e.node.args[1].elts if isinstance(e.node.args[1], ast.Tuple) else [e.node.args[1]])]
+                    tested |= set(kinds)
+                    conds.append((tuple(kinds), e.taken))
+            ret = [e.node.value for e in p.events if e.kind == "return"] if any(e.kind == "return" for e in p.events) else []
+            rv = ret[-1].value if ret and isinstance(ret[-1], ast.Constant) else None
+            verdicts.append((any(t for _, t in conds), rv))
+        okp = bool(verdicts) and tested == {"cpp_sequence", "cpp_collection"} and all(rv is hit for hit, rv in verdicts)
+        col.add("C05.R2", ric.short, "predicate-true-for-sequences-and-collections-only", okp,
+                f"rep_is_collection must return True exactly when the value is a cpp_sequence or a cpp_collection (kinds tested {sorted(tested)}, "
+                f"(any test taken, returned) per path {verdicts}); it decides which columns are filled by push_back and cleared after Fill", ric.loc)
         # cleared variable is the var_names entry's variable
         a = cl.args[0]
         okv = src(a) in (f"{lv}[1][1]",) or (loops and isinstance(loops[0].target, ast.Tuple) and src(a) == f"{src(loops[0].target.elts[1])}[1]")
@@ -183,6 +203,20 @@ def check(col: Collector, tier: str):
                        "a file list that is de-duplicated or re-ordered makes one job differ from the same files split across jobs")
     import_obligations(col, "C05.R8", "c16", lambda o: o.detail == "delivery-command-overwrites",
                        "a run that keeps the previous run's output delivers another job's rows")
+    # ------------------------------------------------------------ R9 every block-local that feeds a column is assigned on every path of ITS event
+    # (a local that is read without having been assigned holds whatever the previous event or row left in its slot)
+    from sa.props.c04 import check_first, check_ifexp
+    from sa.props._tr import check_no_state_on_query_nodes
+    sub = Collector("C05")
+    si = ScopeInterp(repo)
+    check_first(sub, repo, si, m)
+    check_ifexp(sub, repo, si, m)
+    col.floor("C05.R9", 4)
+    for o in sub.obs:
+        if o.detail in ("failure-if-attached-after-the-loop", "false-arm-translated-under-else-after-if-closed", "true-arm-translated-under-if(test)",
+                        "both-arms-assign-the-same-result"):
+            col.add("C05.R9", o.construct, o.detail, o.ok, o.msg + " (otherwise an uninitialised local is written into the row: it holds the previous event's value)", o.loc)
+    check_no_state_on_query_nodes(col, "C05.R9", repo)
     # ------------------------------------------------------------ R5 templates
     check_templates(col)
     # ------------------------------------------------------------ R6 / R7
